@@ -9,7 +9,7 @@ import numpy as np
 import z3
 
 from .. import irsym, sym
-from ..harness import mval, run_case
+from ..harness import mval, replay_pinned, run_case
 from ..runner import pmap
 from ..sym import SymBool, SymInt, eng
 
@@ -166,6 +166,27 @@ def case_transform(case):
             return (l != rr).any(), f"compose {l} vs {rr}"
 
         return run_case(fn, replay, witness=True, sample=dict(kind=kind, shape=(r, m, n)), key=str(case))
+    if kind == "nonlinear":
+        # maps with mod / floordiv / ceildiv somewhere inside: to be refused, or converted exactly (never "linearised")
+        from xdsl.parser import Parser
+
+        from .. import xshim
+
+        _, txt, n = case
+
+        def fn():
+            m = Parser(xshim.make_ctx(), f"affine_map<{txt}>").parse_attribute().data
+            try:
+                T = AffineTransform.from_affine_map(m)
+            except ValueError:
+                eng().oblige("from_affine_map:non_linear_map_refused_or_exact", True)
+                return
+            # accepted: then it has to agree with the map on concrete points where the non-linear term wraps
+            pts = [[k * (j + 1) % 23 for j in range(n)] for k in range(24)]
+            bad = [p for p in pts if list(T.eval(np.array(p))) != list(m.eval(p, []))]
+            eng().oblige("from_affine_map:non_linear_map_refused_or_exact", z3.BoolVal(not bad), dict(map=txt, differs_at=bad[:3]))
+
+        return run_case(fn, lambda f: replay_pinned(fn, f), witness=False, signature=lambda f, v: f["name"], sample=dict(kind=kind, map=txt), key=str(case))
     if kind == "interop":
         _, A, b = case
         A = np.array(A, dtype=int)
@@ -680,6 +701,10 @@ def run(chk):
         for flat in allA:
             for b in itertools.product((0, 3), repeat=r):
                 cases.append(("interop", [list(flat[i * n:(i + 1) * n]) for i in range(r)], list(b)))
+    for txt, n_ in (("(d0) -> (d0 mod 4)", 1), ("(d0) -> (d0 floordiv 2)", 1), ("(d0) -> (d0 ceildiv 2)", 1), ("(d0) -> (d0 mod 4 + 2)", 1),
+                    ("(d0, d1) -> (d0, d1 mod 8)", 2), ("(d0, d1) -> (d0 floordiv 4 + d1, d1)", 2), ("(d0, d1) -> ((d0 + d1) mod 3)", 2),
+                    ("(d0) -> ((d0 ceildiv 4) * 2 + 1)", 1), ("(d0, d1) -> (d0 * 2 + d1 mod 2, d0)", 2)):
+        cases.append(("nonlinear", txt, n_))
     if getattr(chk, "only", None) in (None, "transform"):
         chk.add_results("affine_transform", pmap(case_transform, cases, chunks=8))
     chk.bounds["affine_transform"] = dict(compose="fully symbolic matrices/vectors, shapes <= 3x3x3",
